@@ -233,7 +233,8 @@ func (b *assignmentBuilder) createWithConverter(lhs, rhs bmodel.Node, converter 
 		}
 
 		rhsNode, ok := b.resolveExpr(converter.Src(), root)
-		if !ok {
+		if !ok || rhsNode.ReturnsError() {
+			// A call that also returns an error cannot be an argument.
 			return nil
 		}
 
@@ -356,6 +357,10 @@ func (b *assignmentBuilder) createWithTemplatedMapper(
 func (b *assignmentBuilder) castNode(lhsType types.Type, rhs bmodel.Node) (c bmodel.Node, ok bool) {
 	if types.AssignableTo(rhs.ExprType(), lhsType) {
 		return rhs, true
+	}
+	if rhs.ReturnsError() {
+		// A call that also returns an error cannot be wrapped in a conversion.
+		return nil, false
 	}
 
 	if b.opts.Stringer && types.AssignableTo(util.StringType(), lhsType) && util.CompliesStringer(rhs.ExprType()) {
